@@ -17,12 +17,13 @@ structure BankOnly (s s' : State) : Prop where
   params  : s'.params = s.params
   ledger  : s'.ledger = s.ledger
   resp    : s'.resp = s.resp
+  cp      : s'.cp = s.cp
 
-theorem BankOnly.refl (s : State) : BankOnly s s := ⟨rfl, rfl, rfl, rfl, rfl, rfl, rfl, rfl⟩
+theorem BankOnly.refl (s : State) : BankOnly s s := ⟨rfl, rfl, rfl, rfl, rfl, rfl, rfl, rfl, rfl⟩
 
 theorem BankOnly.trans {a b c : State} (h1 : BankOnly a b) (h2 : BankOnly b c) : BankOnly a c :=
   ⟨h2.pools.trans h1.pools, h2.farmers.trans h1.farmers, h2.queue.trans h1.queue, h2.height.trans h1.height,
-   h2.seq.trans h1.seq, h2.params.trans h1.params, h2.ledger.trans h1.ledger, h2.resp.trans h1.resp⟩
+   h2.seq.trans h1.seq, h2.params.trans h1.params, h2.ledger.trans h1.ledger, h2.resp.trans h1.resp, h2.cp.trans h1.cp⟩
 
 theorem sendAll_ok {s s' : State} {src dst : Addr} {cs : CoinList} (h : sendAll s src dst cs = .ok s') :
     BankOnly s s' ∧ Bank.sendCoins s.bank src dst cs = some s'.bank := by
@@ -31,7 +32,7 @@ theorem sendAll_ok {s s' : State} {src dst : Addr} {cs : CoinList} (h : sendAll 
   · cases h
   · rename_i b hb
     cases h
-    exact ⟨⟨rfl, rfl, rfl, rfl, rfl, rfl, rfl, rfl⟩, hb⟩
+    exact ⟨⟨rfl, rfl, rfl, rfl, rfl, rfl, rfl, rfl, rfl⟩, hb⟩
 
 theorem payRewards_ok {s s' : State} {a : Addr} {rw : CoinList} (h : payRewards s a rw = .ok s') :
     BankOnly s s' ∧ Bank.sendCoins s.bank collectorAcc a rw = some s'.bank := by
@@ -49,7 +50,7 @@ theorem deductFee_ok {s s' : State} {a : Addr} (h : deductFee s a = .ok s') : Ba
   split at h; · cases h
   split at h; · cases h
   cases h
-  exact ⟨rfl, rfl, rfl, rfl, rfl, rfl, rfl, rfl⟩
+  exact ⟨rfl, rfl, rfl, rfl, rfl, rfl, rfl, rfl, rfl⟩
 
 /-! ### stakes and totals -/
 
@@ -111,6 +112,7 @@ structure UpdErr (s s1 : State) (id : PoolId) (p : Pool) (e : Err) : Prop where
   seq     : s1.seq = s.seq
   params  : s1.params = s.params
   ledger  : s1.ledger = s.ledger
+  cp      : s1.cp = s.cp
   bank    : (∀ w, e ≠ .panic w) → s1.bank = s.bank
   pools   : s1.pools = s.pools ∨ ∃ rs, s1.pools = AMap.set s.pools id { p with rules := rs } ∧
               rs.map (·.denom) = p.rules.map (·.denom)
@@ -136,26 +138,26 @@ theorem updatePool_err {s s1 : State} {id : PoolId} {p : Pool} {amount : Int} {i
     · simp at hf
   unfold updatePool at h
   split at h
-  · simp only [Prod.mk.injEq] at h; rw [← h.1]; exact ⟨rfl, rfl, rfl, rfl, rfl, rfl, fun _ => rfl, Or.inl rfl⟩
+  · simp only [Prod.mk.injEq] at h; rw [← h.1]; exact ⟨rfl, rfl, rfl, rfl, rfl, rfl, rfl, fun _ => rfl, Or.inl rfl⟩
   split at h
-  · simp only [Prod.mk.injEq] at h; rw [← h.1]; exact ⟨rfl, rfl, rfl, rfl, rfl, rfl, fun _ => rfl, Or.inl rfl⟩
+  · simp only [Prod.mk.injEq] at h; rw [← h.1]; exact ⟨rfl, rfl, rfl, rfl, rfl, rfl, rfl, fun _ => rfl, Or.inl rfl⟩
   split at h
   · split at h
     · simp only [Prod.mk.injEq] at h; rw [← h.1]
-      exact ⟨rfl, rfl, rfl, rfl, rfl, rfl, fun _ => rfl, Or.inr ⟨_, rfl, collectRules_denoms _ _ _⟩⟩
+      exact ⟨rfl, rfl, rfl, rfl, rfl, rfl, rfl, fun _ => rfl, Or.inr ⟨_, rfl, collectRules_denoms _ _ _⟩⟩
     · unfold releaseAndFinish at h
       split at h
       · have := (hfin _ _ _ h).1; rw [this]
-        exact ⟨rfl, rfl, rfl, rfl, rfl, rfl, fun _ => rfl, Or.inr ⟨_, rfl, collectRules_denoms _ _ _⟩⟩
+        exact ⟨rfl, rfl, rfl, rfl, rfl, rfl, rfl, fun _ => rfl, Or.inr ⟨_, rfl, collectRules_denoms _ _ _⟩⟩
       · split at h
         · simp only [Prod.mk.injEq] at h; rw [← h.1]
-          exact ⟨rfl, rfl, rfl, rfl, rfl, rfl, fun _ => rfl, Or.inr ⟨_, rfl, collectRules_denoms _ _ _⟩⟩
+          exact ⟨rfl, rfl, rfl, rfl, rfl, rfl, rfl, fun _ => rfl, Or.inr ⟨_, rfl, collectRules_denoms _ _ _⟩⟩
         · rename_i s2 hs2
           obtain ⟨hs, w, hw⟩ := hfin _ _ _ h
           rw [hs]
           obtain ⟨bo, _⟩ := sendAll_ok hs2
-          exact ⟨bo.farmers, bo.queue, bo.height, bo.seq, bo.params, bo.ledger,
+          exact ⟨bo.farmers, bo.queue, bo.height, bo.seq, bo.params, bo.ledger, bo.cp,
                  fun hn => absurd hw (hn w), Or.inr ⟨_, bo.pools, collectRules_denoms _ _ _⟩⟩
-  · have := (hfin _ _ _ h).1; rw [this]; exact ⟨rfl, rfl, rfl, rfl, rfl, rfl, fun _ => rfl, Or.inl rfl⟩
+  · have := (hfin _ _ _ h).1; rw [this]; exact ⟨rfl, rfl, rfl, rfl, rfl, rfl, rfl, fun _ => rfl, Or.inl rfl⟩
 
 end Irismod.Proofs.Farm
